@@ -43,6 +43,22 @@ class Real(PackedOps):
     def __init__(self):
         self.pool = {}
         self.info = {}
+        self.files = {}
+        self._tmp = None
+
+    def tmpdir(self):
+        if self._tmp is None:
+            import tempfile
+            base = os.path.join(os.path.dirname(os.path.dirname(os.path.abspath(__file__))), '.work', 'tmp')
+            os.makedirs(base, exist_ok=True)
+            self._tmp = tempfile.mkdtemp(dir=base)
+        return self._tmp
+
+    def cleanup(self):
+        if self._tmp is not None:
+            import shutil
+            shutil.rmtree(self._tmp, ignore_errors=True)
+            self._tmp = None
 
     # ---- helpers -------------------------------------------------------
     def m(self, name):
@@ -195,6 +211,8 @@ class Real(PackedOps):
             return enc_cells(m[a:b:st])
         pix = np.array([int(t) for t in split_list(kv.get('pix', '_'))], dtype=np.int64)
         path = kv.get('path', 'pix')
+        if 'nsord' in kv:
+            return enc_cells(m.get_values_pix(pix, nside=2 ** int(kv['nsord'])))
         if vm:
             if path == 'pos':
                 lon, lat = hpg.pixel_to_angle(m.nside_sparse, pix)
@@ -400,4 +418,32 @@ class Real(PackedOps):
         else:
             r = getattr(healsparse, name)(maps)
         self.pool[kv['r']] = r
+        return 'ok'
+
+    # ---- resolution changes, MOC -------------------------------------------------
+    def op_deg(self, pos, kv):
+        m = self.m(pos[0])
+        w = self.m(kv['w']) if 'w' in kv else None
+        self.pool[kv['r']] = m.degrade(2 ** int(kv['ord']), reduction=kv.get('red', 'mean'), weights=w)
+        return 'ok'
+
+    def op_upg(self, pos, kv):
+        self.pool[kv['r']] = self.m(pos[0]).upgrade(2 ** int(kv['ord']))
+        return 'ok'
+
+    def op_moc(self, pos, kv):
+        import astropy.io.fits as afits
+        m = self.m(pos[0])
+        path = os.path.join(self.tmpdir(), kv.get('f', 'f') + '.moc.fits')
+        m.write_moc(path, clobber=True)
+        self.files[kv.get('f', 'f')] = path
+        with afits.open(path) as hdul:
+            u = np.array(hdul[1].data['UNIQ'], dtype=np.int64)
+        return enc_nats(u)
+
+    def op_mocread(self, pos, kv):
+        if kv.get('f', 'f') not in self.files:
+            raise NoMap(kv.get('f', 'f'))
+        path = self.files[kv.get('f', 'f')]
+        self.pool[kv['r']] = HealSparseMap.read(path, nside_coverage=2 ** int(kv['covord']))
         return 'ok'
